@@ -29,7 +29,7 @@ static const int32_t BIG_TABLE[] = {65535, 65536, 65537, 16384, 32720};
 static inline SizeSpec draw_size(Src &s) {
   SizeSpec z; uint32_t sel = s.below(10);
   if (sel <= 3) { z.mode = 0; uint32_t k = s.below(sizeof SIZE_TABLE / sizeof SIZE_TABLE[0] + 1);
-    z.v = k < sizeof SIZE_TABLE / sizeof SIZE_TABLE[0] ? SIZE_TABLE[k] : (s.below(4) == 3 ? BIG_TABLE[s.below(5)] : 1024); }
+    z.v = k < sizeof SIZE_TABLE / sizeof SIZE_TABLE[0] ? SIZE_TABLE[k] : (s.below(8) == 7 ? BIG_TABLE[s.below(5)] : 1024); }
   else if (sel == 4 || sel == 5) { z.mode = 0; z.v = (int32_t)s.below(48); }
   else { z.mode = (uint8_t)(sel - 5); z.v = (int32_t)s.below(5) - 2; }   // 1 len, 2 free space of last-with-data, 3 first chain off, 4 first chain misalign
   return z;
@@ -79,7 +79,7 @@ struct Exec {
   Geometry geo[NB];
 
   // keep buffers below ~200 KB: growth ops shrink their size once a buffer is large (relative sizes would otherwise compound)
-  size_t grow(const BufW &b, size_t n) { return b.m.len() > 140000 ? n % 61 : n; }
+  size_t grow(const BufW &b, size_t n) { return b.m.len() > 40000 ? n % 61 : n; }
   void invalidate(int b) { for (auto &p : w.P) if (p.buf == b) p.valid = false; }
   bool faulted(uint64_t f0) { bool f = w.oom_mode && sim_mem_failed > f0; if (f) w.oom_hit_in_op = true; return f; }
 
@@ -344,7 +344,7 @@ struct Exec {
     if (o.a2 & 3) CHECK(nread == (line ? (size_t)exp : 0), K("readln-len"), "readln n_read_out=%zu, model %ld", nread, exp);
     if (line) {
       CHECK(memcmp(line, b.m.d.data(), (size_t)exp) == 0 && line[exp] == 0, K("readln-bytes"), "readln(buf%d, style %d) line differs from the model", o.b, style);
-      event_mm_free_(line);
+      sim_mem_free(line);
       if (crosses(geo[o.b], 0, (size_t)exp + mel)) w.saw_cross = true;
       m_take(o.b, (size_t)exp + mel);
     }
